@@ -83,7 +83,7 @@ def marker_of(real):
 def pool(root):
     up = '/..' * (HOME.count('/'))
     return ['d1', 'd2', 'd3', 'missing', 'd1/', root + '/d3', '~' + up + root + '/d2', '~%s%s%s/d1' % (USERS[0], '/..' * pwd.getpwnam(USERS[0]).pw_dir.count('/'), root),
-            '.', '~nouser', 'lnk', './d2/../d2', 'd1/t3.conf']
+            '.', '~nouser', 'lnk', './d2/../d2', 'd1/t3.conf', '', 'd3//', '../' + os.path.basename(root) + '/d2']
 
 
 def names(root):
@@ -120,7 +120,7 @@ def gen(tier, seed):
                 yield {'kind': 'tilde', 'name': nm, 'euid': p_.pw_uid}
     rng = core.seeded_rng(seed, 'c17')
     for _ in range(200 if tier == 'quick' else 5000):
-        n = rng.randint(3, 6)
+        n = rng.randint(3, 6) if rng.random() < 0.9 else rng.randint(11, 14)
         yield {'kind': 'sp', 'dirs': [rng.choice(P) for _ in range(n)], 'names': rng.sample(N, 6)}
 
 
